@@ -38,10 +38,10 @@ def prefs_tokens(rng):
 
 def cases(tier, rng, extended=False):
     quick = tier == "quick"
-    count = 300 if quick else 4000
+    count = 300 if quick else 1200
     if extended:
         count *= 5
-    maxbits = 100 if quick else 130
+    maxbits = 100 if quick else 115
     for n in list(range(0, 301 if quick else 3000)):
         yield Case(f"factor {n} auto", k=False, tag="small", profiles=["release"] if n > 60 else None)
     for inp in fc.structured_inputs(rng, count, maxbits, classes=("tiny", "s16", "s32", "s52") if quick else ("tiny", "s16", "s32", "s52", "s64")):
